@@ -223,6 +223,38 @@ func (r *lockRoles) flagReset(in ssa.Instruction) bool {
 	return false
 }
 
+// openFact: the fact says the provider's shutdown channel was found open: chans.IsOpened(done) is true, or a
+// non-blocking select with a receive case on done took another case (its default).
+func (r *lockRoles) openFact(f ir.Fact) bool {
+	ff := f.StripNot()
+	if call, ok := ff.Cond.(*ssa.Call); ok && ff.True && strings.HasSuffix(ir.CalleeFullName(call), "chans.IsOpened") && len(call.Call.Args) == 1 {
+		return ir.LoadedField(call.Call.Args[0]) == r.doneF
+	}
+	if cm, ok := f.Cmp(); ok && (cm.Op == token.EQL || cm.Op == token.NEQ) {
+		ex, isEx := ir.Resolve(cm.X).(*ssa.Extract)
+		k, isC := ir.ConstInt(cm.Y)
+		if !isEx || !isC || ex.Index != 0 {
+			return false
+		}
+		sel, isSel := ex.Tuple.(*ssa.Select)
+		if !isSel || sel.Blocking {
+			return false
+		}
+		doneIdx := int64(-1)
+		for i, st := range sel.States {
+			if st.Dir == types.RecvOnly && ir.LoadedField(st.Chan) == r.doneF {
+				doneIdx = int64(i)
+			}
+		}
+		if doneIdx < 0 {
+			return false
+		}
+		// index != doneIdx, or index == some other case / default (-1)
+		return (cm.Op == token.NEQ && k == doneIdx) || (cm.Op == token.EQL && k != doneIdx)
+	}
+	return false
+}
+
 // storageCall returns the interface call when in invokes method `name` ("" = any) of kvs.Storage.
 func (r *lockRoles) storageCall(in ssa.Instruction, name string) *ssa.Call {
 	call, ok := in.(*ssa.Call)
@@ -698,14 +730,7 @@ func runC04(c *Ctx) {
 			if !successExitPoint(h, e) {
 				continue
 			}
-			ok := e.HasFact(func(f ir.Fact) bool {
-				ff := f.StripNot()
-				call, isCall := ff.Cond.(*ssa.Call)
-				if !isCall || !ff.True || !strings.HasSuffix(ir.CalleeFullName(call), "chans.IsOpened") {
-					return false
-				}
-				return ir.LoadedField(call.Call.Args[0]) == r.doneF
-			})
+			ok := e.HasFact(r.openFact)
 			c.Decide("C04.R4", h, "token granted only while not shut down", ret, ok, "the token helper succeeds without re-checking the shutdown channel after taking the token: an attempt can acquire after Shutdown")
 			// and the token was received on this path
 			c.NoPath("C04.R4", "success exit passed the token receive", ret, ir.Query{Fn: h, Block: r.tokenRecv, Target: func(x ssa.Instruction) bool { return x == ssa.Instruction(ret) }},
@@ -775,9 +800,21 @@ func runC04(c *Ctx) {
 	nR8 := 0
 	for fn := range r.acquiringFns(c) {
 		var tests []ssa.Value
+		type selTest struct {
+			v        ssa.Value
+			wantTrue bool // the value being wantTrue means "open"
+		}
+		var selTests []selTest
 		ir.Instrs(fn, func(in ssa.Instruction) {
 			if v, ok := in.(ssa.Value); ok && isShutdownTest(v) {
 				tests = append(tests, v)
+			}
+			if bo, ok := in.(*ssa.BinOp); ok && (bo.Op == token.EQL || bo.Op == token.NEQ) {
+				if r.openFact(ir.Fact{Cond: bo, True: true}) {
+					selTests = append(selTests, selTest{bo, true})
+				} else if r.openFact(ir.Fact{Cond: bo, True: false}) {
+					selTests = append(selTests, selTest{bo, false})
+				}
 			}
 		})
 		ir.Instrs(fn, func(in ssa.Instruction) {
@@ -801,6 +838,11 @@ func runC04(c *Ctx) {
 					}
 					for _, t := range tests {
 						if k, ok := val.Known(t); ok && k {
+							return false
+						}
+					}
+					for _, t := range selTests {
+						if k, ok := val.Known(t.v); ok && k == t.wantTrue {
 							return false
 						}
 					}
@@ -886,9 +928,43 @@ func runC05(c *Ctx) {
 				ret, ok := x.(*ssa.Return)
 				return ok && ir.IsReturn(x) && possibleSuccessExit(fn, ret)
 			}
-			c.NoPath("C05.L2", "renewal armed on acquisition", in, ir.Query{Fn: fn, FromBlock: okBlk, Block: armed, Target: success},
+			_ = okBlk
+			// every path from this Create to a success exit, on which the Create did not fail, arms the renewal (and
+			// stores it): paths are enumerated with a per-path valuation, so "err == nil" tested in one place and
+			// "err != nil" in another are the same decision
+			var errTests []*ssa.BinOp
+			ir.Instrs(fn, func(x ssa.Instruction) {
+				bo, ok := x.(*ssa.BinOp)
+				if !ok || (bo.Op != token.EQL && bo.Op != token.NEQ) {
+					return
+				}
+				for _, pair := range [][2]ssa.Value{{bo.X, bo.Y}, {bo.Y, bo.X}} {
+					if ex, isEx := ir.Resolve(pair[0]).(*ssa.Extract); isEx && ex.Tuple == ssa.Value(cr) && ir.IsNilConst(pair[1]) {
+						errTests = append(errTests, bo)
+					}
+				}
+			})
+			createFailed := func(val *ir.Valuation) bool {
+				for _, t := range errTests {
+					if k, ok := val.Known(t); ok {
+						isNil := k == (t.Op == token.EQL)
+						if !isNil {
+							return true
+						}
+					}
+				}
+				return false
+			}
+			pq := func(good func(ssa.Instruction) bool) ir.PathQuery {
+				return ir.PathQuery{Fn: fn, From: in,
+					Stop: func(x ssa.Instruction) bool { return good(x) || (x != in && r.storageCall(x, "Create") != nil) },
+					Target: func(x ssa.Instruction, val *ir.Valuation) bool {
+						return success(x) && !createFailed(val)
+					}}
+			}
+			c.pathVerdict("C05.L2", fn, "renewal armed on acquisition", in, pq(armed),
 				"the lock is acquired without arming a renewal of the lease (period < lease, closure renewing with this Create's version): the record expires under a live holder")
-			c.NoPath("C05.L2", "armed renewal stored in the timer slot", in, ir.Query{Fn: fn, FromBlock: okBlk, Block: stored, Target: success},
+			c.pathVerdict("C05.L2", fn, "armed renewal stored in the timer slot", in, pq(stored),
 				"the armed renewal is not stored in the Locker's timer slot: Unlock cannot cancel it")
 		})
 	}
